@@ -30,7 +30,9 @@ Steps:
   quiescent                                 -> yes | no
 Byte level (Net/Bytes.lean: `bstep`, `flush`, `busHandle`, `cliHandleAll`, `BNet.init`, `drain`, `pick`).  The codec is a
 TABLE filled by the harness with the bytes the real peers wrote: `enc m` = the newest entry under the text `showMsg m`
-(empty when there is none), `dec raw` = the first message serialised so far (`BNet.sent`) whose encoding is `raw`.
+(empty when there is none), `dec raw` = the first message serialised so far (`BNet.sent`) that the table maps to `raw`
+(two clients may write messages with the same text - colliding serials - and different bytes: destination by unique or
+by well-known name; as model messages they are equal).
   breset <n> <firstSerial_0> …              -> ok        (from now on `call`, `resolve`, `expire`, `quiescent` act on the
                                                           byte-level state; `quiescent` answers `yes` only if `pick` agrees)
   codec <msg text> <hex bytes>              -> ok
@@ -233,7 +235,7 @@ def bAuth : Txdbus.Proto.Auth Unit := ⟨fun a _ => (a, .cont)⟩
 /-- the table codec (see the header) -/
 def tableCodec (table : List (String × Txdbus.Proto.Bytes)) (sent : List (Msg V)) : WireCodec V :=
   let enc : Msg V → Txdbus.Proto.Bytes := fun m => ((table.find? (fun e => e.1 == showMsg m)).map (·.2)).getD []
-  { enc := enc, dec := fun raw => sent.find? (fun m => enc m == raw) }
+  { enc := enc, dec := fun raw => sent.find? (fun m => table.any (fun e => e.1 == showMsg m && e.2 == raw)) }
 
 def St.bstep (s : St) (b : BNet V Unit) (st : BStep V) : BNet V Unit :=
   Txdbus.Net.bstep (tableCodec s.table b.sent) bAuth s.world b st
